@@ -464,6 +464,7 @@ func runC16(c *core.Ctx) {
 
 	c16Attributes(c, present)
 	c16SessionBounds(c, present)
+	c16CrossDeployment(c, present)
 	pinAll(t0)
 }
 
@@ -757,6 +758,111 @@ func c16SessionBounds(c *core.Ctx, present func(m *samlsp.Middleware, cookieName
 					}
 				}
 			}
+		}
+	}
+}
+
+// c16CrossDeployment: several SP deployments in ONE process (tenants, or a middleware rebuilt after a configuration change). Every
+// sequence of <= 3 presentations of each deployment's own session token and tracking token to any of the deployments, in one case body:
+// a deployment honours its own session token only, whatever was presented where before.
+func c16CrossDeployment(c *core.Ctx, present func(m *samlsp.Middleware, cookieName, value string, extra ...*http.Cookie) (bool, int, samlsp.Session)) {
+	c.Group("cross-deployment-sequences")
+	t0 := samlgen.T0
+	type depl struct {
+		name, key, url string
+	}
+	sets := [][]depl{
+		{{"A", "sp2048", c16URL}, {"B-other-key-same-url", "spother", c16URL}, {"C-same-key-other-url", "sp2048", "https://other-app.example.com"}},
+		{{"A", "spec256", c16URL}, {"B-other-family-same-url", "sp2048", c16URL}, {"C-same-key-other-url", "spec256", "https://other-app.example.com"}},
+	}
+	for si, set := range sets {
+		n := len(set)
+		// a step = (token of deployment i, kind) presented to deployment j
+		type step struct{ tok, kind, to int }
+		var steps []step
+		for i := 0; i < n; i++ {
+			for k := 0; k < 2; k++ {
+				for j := 0; j < n; j++ {
+					steps = append(steps, step{i, k, j})
+				}
+			}
+		}
+		maxLen := 3
+		var seqs [][]int
+		var gen func(cur []int)
+		gen = func(cur []int) {
+			if len(cur) > 0 {
+				seqs = append(seqs, append([]int{}, cur...))
+			}
+			if len(cur) == maxLen {
+				return
+			}
+			for i := range steps {
+				gen(append(cur, i))
+			}
+		}
+		gen(nil)
+		// group sequences by their first step into one case each (5832 sequences per set are cheap: no RSA signing after minting)
+		for first := range steps {
+			si, set, first := si, set, first
+			c.Case(fmt.Sprintf("crossdep/set=%d/first=token-of-%s-kind%d-to-%s", si, set[steps[first].tok].name, steps[first].kind, set[steps[first].to].name), func(t *core.T) {
+				t.NonTrivial()
+				pinAll(t0)
+				nrun := 0
+				reported := map[string]bool{}
+				for _, sq := range seqs {
+					if sq[0] != first || len(sq) < 2 {
+						continue
+					}
+					// fresh deployments and tokens for every sequence
+					var ms []*samlsp.Middleware
+					var toks [][2]string
+					for _, d := range set {
+						m := c16Middleware(c16Dep{d.key, "", 0}, d.url)
+						ms = append(ms, m)
+						rec := httptest.NewRecorder()
+						var pair [2]string
+						if err := m.Session.CreateSession(rec, httptest.NewRequest("POST", d.url+"/saml/acs", nil), c16Assertion()); err == nil {
+							for _, ck := range rec.Result().Cookies() {
+								if ck.Name == "token" {
+									pair[0] = ck.Value
+								}
+							}
+						}
+						rec2 := httptest.NewRecorder()
+						if _, err := m.RequestTracker.TrackRequest(rec2, httptest.NewRequest("GET", d.url+"/protected", nil), "id-req-1"); err == nil {
+							for _, ck := range rec2.Result().Cookies() {
+								if strings.HasPrefix(ck.Name, "saml_") {
+									pair[1] = ck.Value
+								}
+							}
+						}
+						toks = append(toks, pair)
+					}
+					var path []string
+					for _, si := range sq {
+						st := steps[si]
+						path = append(path, fmt.Sprintf("%s's %s -> %s", set[st.tok].name, []string{"session-token", "tracking-token"}[st.kind], set[st.to].name))
+						ran, _, _ := present(ms[st.to], "token", toks[st.tok][st.kind])
+						nrun++
+						should := st.tok == st.to && st.kind == 0
+						if ran != should {
+							f := "C16/cross-deployment/honours-foreign-or-wrong-token"
+							if should {
+								f = "C16/cross-deployment/refuses-own-session-token"
+							}
+							if !reported[f] {
+								reported[f] = true
+								t.Fail(f, "deployments %v in one process, history: %s: the last presentation ran the protected handler=%v, expected %v", []string{set[0].name, set[1].name, set[2].name}, strings.Join(path, " ; "), ran, should)
+							}
+						}
+					}
+				}
+				t.Evals(nrun)
+				t.Impl(nrun)
+				t.Compared()
+				t.Outcome("cross-deployment")
+			})
 		}
 	}
 }
